@@ -254,15 +254,14 @@ package gnet
 // ---------------------------------------------------------------------------------------------
 // The per-loop protocol (C01, C02, C04, C07, C18): ghost state and invariants
 //
-// Ghost per connection: cons (bytes consumed by the handler), acc (bytes accepted for sending, adata[c] their text),
-// phase (0 new, 1 open, 2 closed), unflushed (data appended by ReadFrom and not yet flushed).
+// Ghost per connection: cons (bytes consumed by the handler), phase (0 new, 1 open, 2 closed), unflushed (data appended
+// by ReadFrom and not yet flushed). The accepted outbound stream is not ghost but derived: what the kernel took so far
+// followed by what is buffered (acc / aat below); every function states how it extends or preserves that stream.
 // Ghost per descriptor (contracts/trusted/unix.spec): kdata/kpos, sdata/spos, owner, polled, armed.
 // nopen / nclose count the OnOpen / OnClose callbacks delivered for a connection.
 //@ import netpoll "github.com/panjf2000/gnet/v2/pkg/netpoll"
-//@ ghost field (c *conn) acc int
 //@ ghost field (c *conn) phase int
 //@ ghost field (c *conn) unflushed bool
-//@ ghost var adata map[Ref]map[int]int
 //@ ghost var nopen map[Ref]int
 //@ ghost var nclose map[Ref]int
 //
@@ -271,27 +270,40 @@ package gnet
 //@ pure isET(el *eventloop) := el.engine.opts.EdgeTriggeredIO
 //@ pure ocnt(c *conn) := elastic.bcnt(c.outboundBuffer)
 //@ pure oat(c *conn, i int) := elastic.bat(c.outboundBuffer, i)
-// OI: outbound invariant — what is buffered is exactly the accepted-but-unsent part, the kernel got the accepted prefix
-// in order, and in level-triggered mode write interest is armed while flushed data is pending.
-//@ pred OI(c *conn) := elastic.bwf(c.outboundBuffer) && c.acc >= 0 && spos[c.fd] >= 0 && c.acc - spos[c.fd] == ocnt(c) &&
-//@     (forall i :: 0 <= i && i < ocnt(c) ==> oat(c, i) == adata[c][spos[c.fd] + i]) &&
-//@     (forall i :: 0 <= i && i < spos[c.fd] ==> sdata[c.fd][i] == adata[c][i]) &&
-//@     (!isET(c.loop) && ocnt(c) > 0 && !c.unflushed ==> armed[c.fd])
+// acc / aat: the accepted outbound stream of c (length, i-th byte): the bytes handed to the kernel followed by the buffered ones.
+//@ pure acc(c *conn) := spos[c.fd] + ocnt(c)
+//@ pure aat(c *conn, i int) := i < spos[c.fd] ? sdata[c.fd][i] : oat(c, i - spos[c.fd])
+// OI: outbound invariant — the buffer is well-formed. armedok: in level-triggered mode write interest is armed while flushed
+// data is pending (otherwise nothing would ever send it).
+//@ pred OI(c *conn) := elastic.bwf(c.outboundBuffer) && spos[c.fd] >= 0
+//@ pred armedok(c *conn) := !isET(c.loop) && ocnt(c) > 0 && !c.unflushed ==> armed[c.fd]
 // addrok: the address interfaces never hold typed nil pointers; ringsep: the two rings are different objects.
 //@ pred addrok(c *conn) := (typeis(c.localAddr, "*net.TCPAddr") || typeis(c.localAddr, "*net.UDPAddr") ==> ref(c.localAddr) != nil) &&
 //@     (typeis(c.remoteAddr, "*net.TCPAddr") || typeis(c.remoteAddr, "*net.UDPAddr") ==> ref(c.remoteAddr) != nil)
 //@ pred ringsep(c *conn) := c.inboundBuffer.rb == nil || c.inboundBuffer.rb != c.outboundBuffer.ringBuffer.rb
+// bufsep: the loop's read buffer shares no memory with the connection's own buffers; c.buffer is a window onto it.
+//@ pred bufsep(c *conn) := (len(c.buffer) == 0 || arr(c.buffer) == arr(c.loop.buffer)) &&
+//@     (c.inboundBuffer.rb != nil ==> disjoint(c.loop.buffer, c.inboundBuffer.rb.buf) && !lbufs[c.outboundBuffer.listBuffer][arr(c.inboundBuffer.rb.buf)]) &&
+//@     (c.outboundBuffer.ringBuffer.rb != nil ==> disjoint(c.loop.buffer, c.outboundBuffer.ringBuffer.rb.buf) &&
+//@          (c.inboundBuffer.rb != nil ==> disjoint(c.inboundBuffer.rb.buf, c.outboundBuffer.ringBuffer.rb.buf))) &&
+//@     !lbufs[c.outboundBuffer.listBuffer][arr(c.loop.buffer)]
+// bufsepw: a caller's data does not overlap the connection's outbound ring (it may be the loop's read buffer).
+//@ pred bufsepw(c *conn, p []byte) := c.outboundBuffer.ringBuffer.rb == nil || disjoint(p, c.outboundBuffer.ringBuffer.rb.buf)
 //@ pred CIcore(c *conn) := c != nil && c.loop != nil && elwf(c.loop) && !c.isDatagram && c.fd >= 0 && owner[c.fd] != nil &&
-//@     c.pollAttachment.FD == c.fd && SI(c) && OI(c) && addrok(c) && ringsep(c)
-// CI: what holds for every open stream connection whenever control is outside the loop-side functions.
-//@ pred CI(c *conn) := CIcore(c) && c.opened && c.phase == 1 && polled[c.fd] && reg(c.loop.connections, c.fd) == c &&
+//@     c.pollAttachment.FD == c.fd && SI(c) && OI(c) && addrok(c) && ringsep(c) && bufsep(c)
+// CI: what holds for every open stream connection whenever control is outside the loop-side functions
+// (CIx: the same without the arming condition, which a connection about to be closed need not meet).
+//@ pred CIx(c *conn) := CIcore(c) && c.opened && c.phase == 1 && polled[c.fd] && reg(c.loop.connections, c.fd) == c &&
 //@     nopen[c] == 1 && nclose[c] == 0
+//@ pred CI(c *conn) := CIx(c) && armedok(c)
 // closing: the state in which OnClose runs (already unregistered, descriptor still open).
 //@ pred closing(c *conn, l *eventloop, fd int) := c.loop == l && c.fd == fd && CIcore(c) && c.opened && c.phase == 1 &&
 //@     reg(l.connections, fd) == nil && nopen[c] == 1
 // aftercb: after a callback the connection is still open with all its invariants, or has been closed exactly once.
 //@ pred aftercb(c *conn, l *eventloop, fd int) := c.loop == l && c.fd == fd && elwf(l) &&
-//@     (c.opened ==> CI(c)) && (!c.opened ==> c.phase == 2 && nclose[c] == 1 && reg(l.connections, fd) != c)
+//@     (c.opened ==> CI(c)) && (!c.opened ==> c.phase == 2 && nclose[c] == 1 && reg(l.connections, fd) != c && CZ(c))
+// CZ: a closed stream connection holds no data and no pooled memory; its (empty) buffers stay well-formed.
+//@ pred CZ(c *conn) := !c.opened && !c.isDatagram && elastic.bwf(c.outboundBuffer) && ocnt(c) == 0 && iwf(c) && icnt(c) == 0
 //
 // release: the connection is marked closed and gives its buffers back.
 //@ func (c *conn) release()
@@ -302,7 +314,8 @@ package gnet
 //@   modifies c.outboundBuffer.listBuffer.*, lnodes[c.outboundBuffer.listBuffer], lpoff[c.outboundBuffer.listBuffer], lview[c.outboundBuffer.listBuffer], npos[c.outboundBuffer.listBuffer], nown, lbufs[c.outboundBuffer.listBuffer]
 //@   modifies-each x *linkedlist.node where linkedlist.mine(c.outboundBuffer.listBuffer, x) :: buf, next
 //@   ghostdef c.phase := 2
-//@   ensures !c.opened && c.phase == 2 && c.fd == old(c.fd) && c.loop == old(c.loop)
+//@   ensures !c.opened && c.phase == 2 && c.fd == old(c.fd) && c.loop == old(c.loop) && c.isDatagram == old(c.isDatagram)
+//@   ensures !c.isDatagram ==> CZ(c)
 // opening: the state in which OnOpen runs (registered, marked opened, nothing consumed or sent yet).
 //@ pred opening(c *conn) := CIcore(c) && c.opened && c.phase == 0 && polled[c.fd] && reg(c.loop.connections, c.fd) == c
 //
@@ -310,10 +323,10 @@ package gnet
 // given error after unregistering it, flushes, releases, and closes the descriptor exactly once.
 //@ func (el *eventloop) close(c *conn, err error) (rerr error)
 //@   requires elwf(el) && c != nil && c.loop == el
-//@   requires c.opened && reg(el.connections, c.fd) != nil ==> CI(c)
+//@   requires c.opened && reg(el.connections, c.fd) != nil ==> CIx(c)
 //@   modifies-all-except eventloop, engine, Options, netpoll.Poller, listener, map[int]*listener, ghost:kdata, ghost:kpos, ghost:nopen if c.opened && reg(el.connections, c.fd) != nil
 //@   ensures c.loop == el && c.fd == old(c.fd) && elwf(el)
-//@   ensures old(c.opened && reg(el.connections, c.fd) != nil) ==> !c.opened && c.phase == 2 && nclose[c] == 1 && owner[c.fd] == nil && reg(el.connections, c.fd) != c
+//@   ensures old(c.opened && reg(el.connections, c.fd) != nil) ==> !c.opened && c.phase == 2 && nclose[c] == 1 && owner[c.fd] == nil && reg(el.connections, c.fd) != c && CZ(c)
 //@   ensures !old(c.opened && reg(el.connections, c.fd) != nil) ==> rerr == nil
 //@   loop 1:
 //@     invariant el == el$0 && c == c$0 && c.loop == el && c.fd == old(c.fd) && elwf(el) && c.opened && c.phase == 1 && nclose[c] == 1 &&
@@ -337,3 +350,59 @@ package gnet
 //@   ensures c.loop == el && c.fd == old(c.fd) && elwf(el)
 //@   ensures !old(c.opened && reg(el.connections, c.fd) != nil) ==> err == nil
 //@   ensures c.opened ==> CI(c) || !old(c.opened && reg(el.connections, c.fd) != nil)
+
+// write: one writable event. The kernel is handed the front of the outbound buffer and exactly what it accepted is
+// dropped from the buffer (so the peer's stream stays the accepted prefix, in order); EAGAIN changes nothing; any other
+// failure closes the connection with a non-nil error; in level-triggered mode write interest is dropped once drained.
+//@ func (el *eventloop) write(c *conn) (err error)
+//@   requires elwf(el) && c != nil && c.loop == el
+//@   requires (c.opened ==> CI(c)) && (!c.opened ==> CZ(c))
+//@   arith unchecked sent byte counts stay far below 2^63
+//@   modifies-all-except eventloop, engine, Options, netpoll.Poller, listener, map[int]*listener, ghost:kdata, ghost:kpos, ghost:nopen if c.opened && ocnt(c) > 0
+//@   ensures c.loop == el && c.fd == old(c.fd) && elwf(el)
+//@   ensures c.opened ==> old(c.opened) && CI(c) && acc(c) == old(acc(c)) && c.cons == old(c.cons) && spos[c.fd] >= old(spos[c.fd])
+//@   ensures c.opened ==> forall i :: 0 <= i && i < acc(c) ==> aat(c, i) == old(aat(c, i))
+//@   ensures !c.opened ==> CZ(c)
+//@   ensures !old(c.opened) ==> err == nil
+//@   ensures old(c.opened) && !c.opened ==> c.phase == 2 && nclose[c] == 1 && owner[c.fd] == nil && reg(el.connections, c.fd) != c
+//@   loop 1:
+//@     invariant el == el$0 && c == c$0 && c.loop == el && c.fd == old(c.fd) && elwf(el) && c.opened && CI(c) && ocnt(c) > 0 && sent >= 0 &&
+//@          acc(c) == old(acc(c)) && c.cons == old(c.cons) && spos[c.fd] >= old(spos[c.fd]) && isET == isET(el) && chunk == el.engine.opts.EdgeTriggeredIOChunk &&
+//@          (forall i :: 0 <= i && i < acc(c) ==> aat(c, i) == old(aat(c, i)))
+//
+// conn.write: while the connection stays open the bytes are accepted: appended to the accepted stream (acc / aat); they go to the kernel directly only if nothing older is pending, otherwise (or for the
+// part the kernel did not take) behind the pending data. A failure other than EAGAIN closes the connection.
+//@ func (c *conn) write(data []byte) (n int, err error)
+//@   requires c != nil && c.loop != nil && elwf(c.loop)
+//@   requires (c.opened ==> CI(c)) && (!c.opened ==> CZ(c))
+//@   requires c.opened ==> bufsepw(c, data)
+//@   arith unchecked sent byte counts stay far below 2^63
+//@   modifies-all-except eventloop, engine, Options, netpoll.Poller, listener, map[int]*listener, ghost:kdata, ghost:kpos, ghost:nopen
+//@   ensures c.loop == old(c.loop) && c.fd == old(c.fd) && elwf(c.loop)
+//@   ensures c.opened ==> old(c.opened) && CI(c) && c.cons == old(c.cons) && acc(c) == old(acc(c)) + len(data) && n == len(data)
+//@   ensures c.opened ==> forall i :: 0 <= i && i < old(acc(c)) ==> aat(c, i) == old(aat(c, i))
+//@   ensures c.opened ==> forall j :: 0 <= j && j < len(data) ==> aat(c, old(acc(c)) + j) == old(data[j])
+//@   ensures !c.opened ==> CZ(c)
+//@   ensures old(c.opened) && !c.opened ==> err != nil && c.phase == 2 && nclose[c] == 1 && owner[c.fd] == nil && reg(c.loop.connections, c.fd) != c
+//@   ensures !old(c.opened) ==> err != nil && n == 0
+//@   loop 1:
+//@     invariant c == c$0 && c.loop == old(c.loop) && c.fd == old(c.fd) && elwf(c.loop) && c.opened && CI(c) && ocnt(c) == 0 && c.cons == old(c.cons) &&
+//@          n == len(data$0) && isET == isET(c.loop) && bufsepw(c, data) && arr(data) == arr(data$0) && len(data) <= len(data$0) &&
+//@          off(data) == off(data$0) + (len(data$0) - len(data)) && acc(c) == old(acc(c)) + (len(data$0) - len(data)) &&
+//@          (forall i :: 0 <= i && i < old(acc(c)) ==> aat(c, i) == old(aat(c, i))) &&
+//@          (forall j :: 0 <= j && j < len(data$0) - len(data) ==> aat(c, old(acc(c)) + j) == old(data$0[j]))
+//@     modifies spos[c.fd], sdata[c.fd]
+//
+// read: one readable event. Every byte read(2) delivers is offered to OnTraffic as part of the readable view, in stream
+// order; what the handler leaves unconsumed moves behind the older ring content; EAGAIN changes nothing; any other failure
+// or EOF closes the connection with a non-nil error.
+//@ func (el *eventloop) read(c *conn) (err error)
+//@   requires elwf(el) && c != nil && c.loop == el
+//@   requires c.opened ==> CI(c) && len(c.buffer) == 0
+//@   arith unchecked received byte counts stay far below 2^63
+//@   modifies-all-except eventloop, engine, Options, netpoll.Poller, listener, map[int]*listener, ghost:kdata, ghost:nopen if c.opened
+//@   ensures c.loop == el && c.fd == old(c.fd) && elwf(el)
+//@   ensures c.opened ==> CI(c) && (err == nil ==> len(c.buffer) == 0)
+//@   ensures !old(c.opened) ==> err == nil
+//@   loop 1:
+//@     invariant el == el$0 && c == c$0 && c.loop == el && c.fd == old(c.fd) && elwf(el) && c.opened && CI(c) && len(c.buffer) == 0 && recv >= 0
